@@ -48,12 +48,6 @@ pub(crate) fn spec_box_header(b: &[u8]) -> SpecHeader {
     SpecHeader::Done { ty, payload: Some(size as u64 - 8), header_size: 8 }
 }
 
-/// The defect class reported separately (see box_header_contract): a size==1 header of which the
-/// 8..=15 first bytes are available.
-fn largesize_cut(b: &[u8]) -> bool {
-    b.len() >= 8 && b.len() < 16 && b[0] == 0 && b[1] == 0 && b[2] == 0 && b[3] == 1
-}
-
 const MAXH: usize = 18;
 
 #[kani::proof]
@@ -73,13 +67,7 @@ fn box_header_contract() {
     kani::cover!(matches!(&r, Ok(HeaderParseResult::Done { header_size: 8, header }) if header.box_size == Some(0xffff_fff7)));
     kani::cover!(matches!(&r, Ok(HeaderParseResult::NeedMoreData)) && len == 7);
     kani::cover!(matches!(&r, Err(Error::InvalidBox)) && len >= 16);
-
-    if largesize_cut(buf) {
-        // isolated so that this one site can be matched by a known-finding line
-        assert!(matches!(&r, Ok(HeaderParseResult::NeedMoreData)),
-            "[C10,C09] a size==1 (64-bit largesize) box header with only 8..15 bytes available is NeedMoreData, not a verdict");
-        return;
-    }
+    kani::cover!(matches!(&r, Ok(HeaderParseResult::NeedMoreData)) && len == 15 && data[3] == 1);
 
     match (&r, spec) {
         (Ok(HeaderParseResult::NeedMoreData), SpecHeader::NeedMore) => {}
@@ -98,7 +86,8 @@ fn box_header_contract() {
             }
         }
         (Ok(HeaderParseResult::NeedMoreData), _) => assert!(false, "[C10,C09] NeedMoreData although the whole header is present"),
-        (_, SpecHeader::NeedMore) => assert!(false, "[C10,C09] a decision was made on a truncated header"),
+        // includes a size==1 header of which only 8..15 bytes are there: the largesize field is part of the header
+        (_, SpecHeader::NeedMore) => assert!(false, "[C10,C09] a verdict on a truncated header (NeedMoreData is due whenever the buffer is shorter than the header: 8 bytes, or 16 with a largesize field)"),
         (Err(Error::InvalidBox), _) => assert!(false, "[C10] well-formed header rejected"),
         (Err(_), _) => assert!(false, "[C10] box header errors are InvalidBox"),
         (Ok(_), SpecHeader::Invalid) => assert!(false, "[C10] a declared size smaller than the header must be rejected with InvalidBox"),
@@ -118,11 +107,6 @@ fn box_header_prefix_lemma() {
     let pre = ContainerBoxHeader::parse(&data[..cut]);
     kani::cover!(matches!(&pre, Ok(HeaderParseResult::NeedMoreData)) && matches!(&full, Ok(HeaderParseResult::Done { .. })));
     kani::cover!(matches!(&pre, Ok(HeaderParseResult::Done { .. })));
-    if largesize_cut(&data[..cut]) {
-        assert!(matches!(&pre, Ok(HeaderParseResult::NeedMoreData)),
-            "[C09,C10] a size==1 (64-bit largesize) box header cut after 8..15 bytes is NeedMoreData, not a verdict");
-        return;
-    }
     match (&pre, &full) {
         (Ok(HeaderParseResult::NeedMoreData), _) => {}
         (Err(Error::InvalidBox), Err(Error::InvalidBox)) => {}
